@@ -14,6 +14,7 @@ import os
 import re
 
 import common
+import c02_emit
 import explore as X
 import vhdl_reader as R
 
@@ -1543,6 +1544,8 @@ def run_designs(ck, designs, wide, singles_only=False):
                 continue
             cases.append(make_case(ck, d, r["vhdl"], wide))
         results = prove(ck, cases)
+        # the printed expression of every in-grammar tree = Models/ExprEmit.emit of the tree (syntactic tie)
+        c02_emit.run_extra(ck, [(c.design_obj, c.vhdl, st) for c, st, info in results])
         for c, st, info in results:
             d = c.design_obj
             if st == "ok":
